@@ -24,7 +24,12 @@ def tla(v):
             return '<<>>'
         if all(isinstance(k, str) and _ID.match(k) and k not in _KEYWORDS for k in v):
             return '[' + ', '.join('%s |-> %s' % (k, tla(x)) for k, x in v.items()) + ']'
-        return '(' + ' @@ '.join('%s :> %s' % (tla(k), tla(x)) for k, x in v.items()) + ')'
+        if len(v) <= 6:
+            return '(' + ' @@ '.join('%s :> %s' % (tla(k), tla(x)) for k, x in v.items()) + ')'
+        # a long @@ chain nests deeply and overflows TLC's evaluation stack
+        ks = list(v.keys())
+        return ('(LET ks == %s vs == %s IN [k \\in {ks[i] : i \\in DOMAIN ks} |-> '
+                'vs[CHOOSE i \\in DOMAIN ks : ks[i] = k]])' % (tla(ks), tla([v[k] for k in ks])))
     raise TypeError('cannot express %r in TLA+' % (v,))
 
 
